@@ -201,6 +201,10 @@ type deployRec struct {
 	nCkpt  int
 	kgs    int
 	want   int // WorkerCount of the job at that time
+	// delivered: the request reached a live worker process. Only a second *delivered* deployment
+	// of the same worker is "a surviving worker redeployed in place"; a deployment sent to a dead,
+	// not yet purged node reaches nobody.
+	delivered bool
 }
 
 type assignRec struct {
@@ -378,11 +382,7 @@ func (o *cluOpClient) Deploy(ctx context.Context, req *workerpb.DeployOperatorRe
 	o.w.mu.Lock()
 	rec.jobInc = o.w.jobInc
 	rec.want = o.w.workerCount
-	for _, d := range o.w.deploys {
-		if d.kind == "op" && d.target == rec.target {
-			o.w.c.AddTag("a surviving worker was redeployed in place")
-		}
-	}
+	idx := len(o.w.deploys)
 	o.w.deploys = append(o.w.deploys, rec)
 	o.w.mu.Unlock()
 	o.w.net.record(o.from, o.node.Host, "deploy-op", fmt.Sprintf("ops=%v srs=%v ckpts=%d id=%d", rec.ops, rec.srs, rec.nCkpt, rec.ckptID))
@@ -391,6 +391,14 @@ func (o *cluOpClient) Deploy(ctx context.Context, req *workerpb.DeployOperatorRe
 		if wk == nil {
 			return errTransport
 		}
+		o.w.mu.Lock()
+		for _, d := range o.w.deploys[:idx] {
+			if d.kind == "op" && d.target == rec.target && d.delivered {
+				o.w.c.AddTag("a surviving worker was redeployed in place")
+			}
+		}
+		o.w.deploys[idx].delivered = true
+		o.w.mu.Unlock()
 		o.w.h.onDeploy(o.node.Id, req)
 		o.w.disk.ReleaseStalls() // a slow snapshot publication lands while the next deployment is under way
 		return wk.op.HandleDeploy(ctx, req, recSink{})
@@ -451,11 +459,7 @@ func (s *cluSRClient) Deploy(ctx context.Context, req *workerpb.DeploySourceRunn
 	for id := range s.w.startCkpt { // a new assembly: whatever was in flight is abandoned
 		s.w.abandonedUpTo = max(s.w.abandonedUpTo, id)
 	}
-	for _, d := range s.w.deploys {
-		if d.kind == "sr" && d.target == rec.target {
-			s.w.c.AddTag("a surviving worker was redeployed in place")
-		}
-	}
+	idx := len(s.w.deploys)
 	s.w.deploys = append(s.w.deploys, rec)
 	s.w.mu.Unlock()
 	s.w.net.record("job", s.node.Host, "deploy-sr", fmt.Sprintf("ops=%v", rec.ops))
@@ -464,6 +468,14 @@ func (s *cluSRClient) Deploy(ctx context.Context, req *workerpb.DeploySourceRunn
 		if wk == nil {
 			return errTransport
 		}
+		s.w.mu.Lock()
+		for _, d := range s.w.deploys[:idx] {
+			if d.kind == "sr" && d.target == rec.target && d.delivered {
+				s.w.c.AddTag("a surviving worker was redeployed in place")
+			}
+		}
+		s.w.deploys[idx].delivered = true
+		s.w.mu.Unlock()
 		return wk.sr.HandleDeploy(ctx, req)
 	})
 }
